@@ -73,7 +73,7 @@ def lookupRegularOutput (st : FileState) (detached : Bool) : Bool :=
   ((regularOutputTable.find? fun e => e.1 = (st, detached)).map (·.2)).getD false
 
 /-- Label in `[dir, dir_range_upper(dir))` (proved equal to the prefix test in `Props/C18`). -/
-def underDir (dir label : String) : Bool := label.startsWith dir
+def underDir (dir label : String) : Bool := dir == "./" || label.startsWith dir
 
 /-- Attached non-volatile sink files of a step (`REGULAR_OUTPUT_WHERE` over its sinks). -/
 def KState.regularOutputs (s : KState) (step : Key) : List String :=
